@@ -21,6 +21,8 @@ pub enum Op {
     AddBurst { n: u32 },
     Update { k: usize, a: u16, o: u32, s: u32 },
     UpdateBurst { from: u32, n: u32, a: u16 },
+    /// update_entry_status on `n` consecutive burst keys (st: 3 = delete, 6 / 7 = non-resident flags, 0 = normal)
+    StatusBurst { from: u32, n: u32, st: u8 },
     Status { k: usize, st: u8 },
     Remove { k: usize },
     RemoveBurst { from: u32, n: u32 },
@@ -49,6 +51,14 @@ pub struct Case {
     /// bucket that burst keys are concentrated in
     pub bucket: u8,
     pub ops: Vec<Op>,
+    /// burst keys in pseudo-random key order (counter * odd constant) instead of ascending: a later burst then
+    /// lands BETWEEN the keys of earlier ones in the sorted section, not after them
+    #[serde(default)]
+    pub scramble: bool,
+    /// residency: a delete batch is padded with the burst keys marked so far (keys that EXIST) before the
+    /// never-marked filler keys
+    #[serde(default)]
+    pub pad_with_burst: bool,
 }
 
 fn idx_bucket(k: &[u8]) -> u8 {
@@ -123,7 +133,7 @@ impl Scenario for Kmt {
         "exploration"
     }
     fn rule(&self) -> &'static str {
-        "Seeded histories (5-60 ops, one op may be a burst of up to 1400 entries in ONE bucket so the 1260-entry update section fills) over add/update/update_status/remove/flush_bucket/flush_all/save_all/reload/clear_bucket/clear on the real IndexManager with real .idx files, and over mark_resident/mark_non_resident/mark_span_non_resident/delete_keys (incl. one >10000-key batch)/save/load on the real ResidencyDb, driven directly or (one run in three of that arm) through its ResidencyContainer wrapper (initialize/flush/re-initialize as load). Keys: bucket-targeted by inverting the bucket hash, aliases sharing the 9-byte prefix, all-0xFF, archive id 1023, offset 2^30-1. After every op lookups of touched keys and never-inserted neighbours, entry_count and iter_entries/scan_keys are compared with a BTreeMap model; booleans returned by mutators must equal 'the model changed'; the same after save + reload into a fresh instance. Non-trivial = >= 2 mutations; distinct = hash of (config, ops, observed results)."
+        "Seeded histories (5-60 ops, one op may be a burst of up to 1400 entries in ONE bucket so the 1260-entry update section fills) over add/update/update_status (single and in bursts of up to 1300 in one bucket)/remove/flush_bucket/flush_all/save_all/reload/clear_bucket/clear on the real IndexManager with real .idx files, and over mark_resident/mark_non_resident/mark_span_non_resident/delete_keys (incl. one >10000-key batch)/save/load on the real ResidencyDb, driven directly or (one run in three of that arm) through its ResidencyContainer wrapper (initialize/flush/re-initialize as load). Keys: bucket-targeted by inverting the bucket hash (burst keys in ascending or - half the runs - pseudo-random key order; residency delete batches padded with the burst keys that exist - half the runs - or with never-marked keys), aliases sharing the 9-byte prefix, all-0xFF, archive id 1023, offset 2^30-1. After every op lookups of touched keys and never-inserted neighbours, entry_count and iter_entries/scan_keys are compared with a BTreeMap model; booleans returned by mutators must equal 'the model changed'; the same after save + reload into a fresh instance. Non-trivial = >= 2 mutations; distinct = hash of (config, ops, observed results)."
     }
     fn assumptions(&self) -> Vec<&'static str> {
         vec![
@@ -249,6 +259,7 @@ impl Scenario for Kmt {
                         let (a, o, s) = loc(rng);
                         Op::Update { k, a, o, s }
                     }
+                    3 if rng.chance(1, 3) => Op::StatusBurst { from: rng.below(u64::from(burst_total.max(1))) as u32, n: *rng.pick(&[1u32, 21, 200, 1260, 1300]), st: *rng.pick(&[7u8, 6, 3, 0]) },
                     3 => Op::UpdateBurst { from: rng.below(u64::from(burst_total.max(1))) as u32, n: *rng.pick(&[1u32, 21, 200, 1260, 1300]), a: rng.below(1024) as u16 },
                     4 => Op::Status { k, st: *rng.pick(&[0u8, 3, 6, 7]) },
                     5 => Op::Remove { k },
@@ -291,7 +302,11 @@ impl Scenario for Kmt {
                 ops.push(op);
             }
         }
-        Case { sys: if index { "index".into() } else if rng.chance(1, 3) { "residency_container".into() } else { "residency".into() }, keys: keys.iter().map(hex::encode).collect(), bucket, ops }
+        let sys: String = if index { "index".into() } else if rng.chance(1, 3) { "residency_container".into() } else { "residency".into() };
+        // drawn last
+        let scramble = rng.chance(1, 2);
+        let pad_with_burst = rng.chance(1, 2);
+        Case { sys, keys: keys.iter().map(hex::encode).collect(), bucket, ops, scramble, pad_with_burst }
     }
 
     fn execute(&self, case: &Case, ctx: &mut Ctx) -> Option<Violation> {
@@ -313,6 +328,7 @@ impl Scenario for Kmt {
                 Op::AddBurst { n } if *n > 1 => Some(Op::AddBurst { n: n - 1 - (n - 1) / 2 }),
                 Op::RemoveBurst { from, n } if *n > 1 => Some(Op::RemoveBurst { from: *from, n: n / 2 }),
                 Op::UpdateBurst { from, n, a } if *n > 1 => Some(Op::UpdateBurst { from: *from, n: n / 2, a: *a }),
+                Op::StatusBurst { from, n, st } if *n > 1 => Some(Op::StatusBurst { from: *from, n: n / 2, st: *st }),
                 Op::MarkBurst { n } if *n > 1 => Some(Op::MarkBurst { n: n / 2 }),
                 Op::DeleteKeys { ks, pad_to } if *pad_to > 0 => Some(Op::DeleteKeys { ks: ks.clone(), pad_to: 0 }),
                 Op::Reload { flush_only: true } => Some(Op::Reload { flush_only: false }),
@@ -344,6 +360,7 @@ fn sig(sys: &str, class: &str, extra: &str) -> String {
 }
 
 async fn run_index(case: &Case, ctx: &mut Ctx) -> Option<Violation> {
+    let sc = |c: u32| if case.scramble { c.wrapping_mul(0x9E37_79B1) } else { c };
     let dir = ctx.root.join("indices");
     std::fs::create_dir_all(&dir).ok()?;
     let keys: Vec<[u8; 16]> = case.keys.iter().map(|s| parse16(s)).collect();
@@ -421,7 +438,7 @@ async fn run_index(case: &Case, ctx: &mut Ctx) -> Option<Violation> {
             }
             Op::AddBurst { n } => {
                 for c in burst_total..burst_total + *n {
-                    let key = burst_key(true, case.bucket, c);
+                    let key = burst_key(true, case.bucket, sc(c));
                     let loc: Loc = ((c % 1024) as u16, c.wrapping_mul(2654435761) & 0x3FFF_FFFF, c ^ 0xABCD);
                     if let Err(e) = mgr.add_entry(&EncodingKey::from_bytes(key), loc.0, loc.1, loc.2) {
                         viol!("C05.add.ok", "add_failed", ",burst", format!("op #{i} add_entry #{c} of a burst into bucket {:#x} failed: {e}", case.bucket));
@@ -452,7 +469,7 @@ async fn run_index(case: &Case, ctx: &mut Ctx) -> Option<Violation> {
                 if burst_total > 0 {
                     for j in 0..*n {
                         let c = (from + j) % burst_total;
-                        let key = burst_key(true, case.bucket, c);
+                        let key = burst_key(true, case.bucket, sc(c));
                         let had = m.contains_key(&k9(&key));
                         let loc: Loc = (*a, (c + j) & 0x3FFF_FFFF, j);
                         let r = mgr.update_entry(&EncodingKey::from_bytes(key), loc.0, loc.1, loc.2);
@@ -470,6 +487,28 @@ async fn run_index(case: &Case, ctx: &mut Ctx) -> Option<Violation> {
                     full_check = true;
                 }
                 ctx.event(|| json!({"k":"op","op":"update_burst","from":from,"n":n}));
+            }
+            Op::StatusBurst { from, n, st } => {
+                if burst_total > 0 {
+                    for j in 0..*n {
+                        let c = (from + j) % burst_total;
+                        let key = burst_key(true, case.bucket, sc(c));
+                        let had = m.contains_key(&k9(&key));
+                        let r = mgr.update_entry_status(&EncodingKey::from_bytes(key), status_of(*st));
+                        if had && *st == 3 {
+                            m.remove(&k9(&key));
+                        }
+                        if r != had {
+                            viol!("C05.mutator.truthful", "status_result", if had { ",ret=false_for_present,burst" } else { ",ret=true_for_absent,burst" }, format!("op #{i} update_entry_status({st}) of burst key #{c} ({j} of {n} in a row) returned {r}, the key is {} in the model", if had { "present" } else { "absent" }));
+                        }
+                        if let Some(d) = check_keys(&mgr, &m, std::iter::once(&key)) {
+                            viol!("C05.lookup.latest", "lookup_mismatch", ",after=status_burst", format!("op #{i} after update_entry_status({st}) of burst key #{c} ({j} of {n}): {d}"));
+                        }
+                    }
+                    ctx.mutations += 1;
+                    full_check = true;
+                }
+                ctx.event(|| json!({"k":"op","op":"status_burst","from":from,"n":n,"st":st}));
             }
             Op::Status { k, st } => {
                 let key = keys[*k % nk];
@@ -502,7 +541,7 @@ async fn run_index(case: &Case, ctx: &mut Ctx) -> Option<Violation> {
                 if burst_total > 0 {
                     for j in 0..*n {
                         let c = (from + j) % burst_total;
-                        let key = burst_key(true, case.bucket, c);
+                        let key = burst_key(true, case.bucket, sc(c));
                         let r = mgr.remove_entry(&EncodingKey::from_bytes(key));
                         let had = m.remove(&k9(&key)).is_some();
                         if r != had {
@@ -605,7 +644,7 @@ async fn run_index(case: &Case, ctx: &mut Ctx) -> Option<Violation> {
             let step = if full_check || i + 1 == case.ops.len() { 1 } else { (burst_total / 16).max(1) };
             let mut c = 0;
             while c < burst_total {
-                let key = burst_key(true, case.bucket, c);
+                let key = burst_key(true, case.bucket, sc(c));
                 if let Some(d) = check_keys(&mgr, &m, std::iter::once(&key)) {
                     viol!("C05.lookup.latest", "lookup_mismatch", after, format!("after op #{i} ({name}), burst key #{c}: {d}"));
                 }
@@ -710,6 +749,7 @@ impl Rs {
 }
 
 fn run_residency(case: &Case, ctx: &mut Ctx) -> Option<Violation> {
+    let sc = |c: u32| if case.scramble { c.wrapping_mul(0x9E37_79B1) } else { c };
     let dir = ctx.root.join("residency");
     std::fs::create_dir_all(&dir).ok()?;
     let path = dir.join("residency.db");
@@ -784,6 +824,17 @@ fn run_residency(case: &Case, ctx: &mut Ctx) -> Option<Violation> {
             }
             Op::DeleteKeys { ks, pad_to } => {
                 let mut list: Vec<[u8; 16]> = ks.iter().map(|k| keys[*k % nk]).collect();
+                let mut padded_existing: Vec<[u8; 16]> = Vec::new();
+                if case.pad_with_burst && *pad_to > 0 {
+                    for c in 0..burst_total {
+                        if (list.len() as u32) >= *pad_to {
+                            break;
+                        }
+                        let key = burst_key(false, case.bucket, sc(c));
+                        list.push(key);
+                        padded_existing.push(key);
+                    }
+                }
                 let mut c = 0u32;
                 while (list.len() as u32) < *pad_to {
                     let mut k = [0xD1u8; 16];
@@ -797,6 +848,9 @@ fn run_residency(case: &Case, ctx: &mut Ctx) -> Option<Violation> {
                 for k in ks {
                     m.insert(keys[*k % nk], false);
                 }
+                for k in &padded_existing {
+                    m.insert(*k, false);
+                }
                 if *pad_to > 10_000 {
                     ctx.reached("batch_delete_path");
                 }
@@ -805,7 +859,7 @@ fn run_residency(case: &Case, ctx: &mut Ctx) -> Option<Violation> {
             }
             Op::MarkBurst { n } => {
                 for c in burst_total..burst_total + *n {
-                    let key = burst_key(false, case.bucket, c);
+                    let key = burst_key(false, case.bucket, sc(c));
                     if let Err(e) = db.mark_resident(&key) {
                         viol!("C05.op.no_error", "op_error", "", format!("op #{i} mark_resident (burst) failed: {e}"));
                     }
